@@ -152,6 +152,17 @@ class ObjV(V):
         return 'ObjV(%s)' % self.cls.name
 
 
+class ExcV(V):
+    """an exception object caught by a handler (concrete mode): keeps what was raised"""
+    __slots__ = ('what',)
+
+    def __init__(self, what):
+        self.what = what
+
+    def __repr__(self):
+        return 'ExcV(%s)' % self.what
+
+
 class PartialV(V):
     """functools.partial(func, *args, **kwargs)"""
     __slots__ = ('func', 'args', 'kwargs')
@@ -584,22 +595,27 @@ class Interp:
             if not isinstance(v, Const):
                 self.assume(self.cond_key(v, st.test), True)
         elif isinstance(st, ast.Raise):
+            if isinstance(st.exc, ast.Name) and isinstance(fr.lookup(st.exc.id), ExcV):
+                raise Raised(fr.lookup(st.exc.id).what, st.lineno)
             raise Raised(src(st.exc) if st.exc is not None else 're-raise', st.lineno)
         elif isinstance(st, ast.Try):
+            # the finally block runs on every way out: normal completion, return / break / continue, an exception that is
+            # handled, one that is not, and one raised by a handler (Undecided / PathLimit abort the analysis and skip it)
             try:
-                self.exec_block(st.body, fr)
-            except Raised as exc_:
-                h = _matching_handler(st.handlers, exc_)
-                if h is None:
-                    self.exec_block(st.finalbody, fr)
-                    raise
-                if h.name:
-                    fr.vars[h.name] = Sym('exc')
-                self.exec_block(h.body, fr)
-            else:
-                self.exec_block(st.orelse, fr)
-            finally:
-                pass
+                try:
+                    self.exec_block(st.body, fr)
+                except Raised as exc_:
+                    h = _matching_handler(st.handlers, exc_)
+                    if h is None:
+                        raise
+                    if h.name:
+                        fr.vars[h.name] = ExcV(exc_.what) if getattr(self, 'concrete_context', False) else Sym('exc')
+                    self.exec_block(h.body, fr)
+                else:
+                    self.exec_block(st.orelse, fr)
+            except (Raised, _Return, _Break, _Continue):
+                self.exec_block(st.finalbody, fr)
+                raise
             self.exec_block(st.finalbody, fr)
         elif isinstance(st, ast.ImportFrom) and fr.module is not None:
             mod = fr.module._abs_module(st.level, st.module)
@@ -731,6 +747,8 @@ class Interp:
                         for st_ in ci.node.body:
                             if isinstance(st_, ast.Assign) and src(st_.targets[0]) == '__slots__':
                                 return TupleV([Const(e.value) for e in ast.walk(st_.value) if isinstance(e, ast.Constant)])
+            if attr in ('__qualname__', '__name__') and getattr(self, 'concrete_context', False):
+                return Const(obj.name)
             if attr in ('__module__', '__qualname__', '__name__'):
                 return SymStr('%s.%s' % (obj.name, attr), nonempty=True)
             if attr in ('__repr__', '__str__', '__format__'):
@@ -781,6 +799,8 @@ class Interp:
             if isinstance(obj, Const) and isinstance(obj.v, str) and attr in _PURE_STR_METHODS:
                 return BoundV(obj, attr)
             return BoundV(obj, attr) if attr in _METHODS else Sym('%s.%s' % (_prov(obj), attr))
+        if isinstance(obj, ExcV):
+            return Sym('%s.%s' % (_prov(obj), attr))
         if isinstance(obj, FuncV):
             return SymStr('%s.%s' % (obj.fn.name if obj.fn else 'lambda', attr), nonempty=True)
         if isinstance(obj, Prim):
@@ -1121,7 +1141,7 @@ class Interp:
             return bool(v.v)
         if isinstance(v, (ListV, TupleV, SetV, DictV)):
             return len(v.items) > 0
-        if isinstance(v, (DocV, CtxV, FuncV, Prim, TypeV, AnnotV, BoundV, ObjV, PartialV)):
+        if isinstance(v, (DocV, CtxV, FuncV, Prim, TypeV, AnnotV, BoundV, ObjV, PartialV, ExcV)):
             return True
         if isinstance(v, SymStr):
             if v.nonempty is True:
@@ -1358,6 +1378,11 @@ class Interp:
                 return TupleV([]) if not getattr(self, 'concrete_context', False) else DictV([])
             return args[0]
         if name in ('int', 'float'):
+            if getattr(self, 'concrete_context', False) and len(args) == 1 and isinstance(args[0], Const) and not kwargs:
+                try:
+                    return Const((int if name == 'int' else float)(args[0].v))
+                except (ValueError, TypeError) as e:
+                    raise Raised('%s: %s' % (type(e).__name__, e), getattr(node, 'lineno', 0))
             return Sym('%s(%s)' % (name, ','.join(_prov(a) for a in args)))
         if name not in DOC_CLASSES and not self.repo_has_class(name):
             # a foreign class (datetime.timezone, ...): opaque value
@@ -1368,6 +1393,10 @@ class Interp:
         return any(name in m.classes for m in self.repo.modules.values())
 
     def type_of(self, v):
+        if isinstance(v, ExcV):
+            import re as _re
+            m_ = _re.match(r'(\w+)', v.what or '')
+            return TypeV(m_.group(1) if m_ else 'Exception')
         if isinstance(v, ObjV):
             if '__class__' in v.attrs:
                 return v.attrs['__class__']
@@ -1457,7 +1486,7 @@ class Interp:
         v, t = a
         types = t.items if isinstance(t, TupleV) else [t]
         names = [x.name for x in types if isinstance(x, (TypeV, Prim))]
-        if len(names) != len(types):
+        if len(names) != len(types) and not (isinstance(v, ObjV) and all(isinstance(x, (TypeV, Prim, ObjV)) for x in types)):
             raise Undecided('isinstance against %r' % (t,))
         if isinstance(v, DocV):
             kind = {'Ann': 'Annotated', 'Cat': 'Concat', 'Grp': 'Group', 'AB': 'AlwaysBreak', 'Nest': 'Nest',
@@ -1478,6 +1507,27 @@ class Interp:
             return Const(('CommentAnnotation' in names and is_c) or ('Token' in names and not is_c))
         if isinstance(v, ValueV):
             return Const(v.type.base in names or v.type.name in names or 'object' in names)
+        if isinstance(v, ExcV):
+            import builtins as _b
+            import re as _re
+            m_ = _re.match(r'(\w+)', v.what or '')
+            cls_ = getattr(_b, m_.group(1), None) if m_ else None
+            others = [getattr(_b, n_, None) for n_ in names]
+            if isinstance(cls_, type) and all(isinstance(o_, type) for o_ in others):
+                return Const(any(issubclass(cls_, o_) for o_ in others))
+            return Const(self.decide('isinstance(%s, %s)' % (_prov(v), '|'.join(sorted(names)))))
+        if isinstance(v, ObjV) and isinstance(v.attrs.get('__class__'), ObjV) and '__mro__' in v.attrs['__class__'].attrs:
+            # an instance of a modelled class: the model's own MRO decides
+            mro_names = set()
+            for c_ in v.attrs['__class__'].attrs['__mro__'].items:
+                if isinstance(c_, TypeV):
+                    mro_names.add(c_.name)
+                elif isinstance(c_, ObjV) and isinstance(c_.attrs.get('__name__'), Const):
+                    mro_names.add(c_.attrs['__name__'].v)
+            for t_ in types:
+                if isinstance(t_, ObjV) and any(t_ is c_ for c_ in v.attrs['__class__'].attrs['__mro__'].items):
+                    return Const(True)
+            return Const(bool(mro_names & set(names)))
         if isinstance(v, ObjV):
             seen, todo = set(), [v.cls.name]
             while todo:
@@ -1698,6 +1748,8 @@ def _prov(v):
         return v.fn.name if v.fn else 'lambda'
     if isinstance(v, Prim):
         return v.name
+    if isinstance(v, ExcV):
+        return 'exc<%s>' % v.what.split(':')[0].split('(')[0]
     if isinstance(v, AnnotV):
         return str(v.label)
     return repr(v)
